@@ -1,5 +1,5 @@
-(* L3/SqrtNLemmas.v — rounding facts used by the proof of the repaired Sqrt
-   (L3/SqrtNProofs.v): upper bounds of roundings, invariance of the rounding
+(* L3/SqrtLemmas.v — rounding facts used by the proof of the repaired Sqrt
+   (L3/SqrtProofs.v): upper bounds of roundings, invariance of the rounding
    specification under scaling by a power of ten, and the key fact that one
    rounding decision covers a whole open grid cell. *)
 From Coq Require Import ZArith List Bool Lia QArith Qabs Lqa.
